@@ -120,6 +120,19 @@ def run(ck, tier):
     ck.sample({'rule': 'R3', 'transport-methods': sorted(transport), 'tm-methods-touching-client': sorted(touching)})
     api = [cx.method(cb, 'execute')] + list(cx.idx.cls(MIXIN).methods.values())
     n3 = 0
+    # delegation is transitive through helpers of the API classes: a method delegates when it calls the locked execute or
+    # another method of the same classes that does
+    delegating = {'execute'} & set()
+    selfcalls = {}
+    for fn in api:
+        selfcalls[fn.name] = {U(c.func) for c in ast.walk(fn.node) if isinstance(c, ast.Call) and isinstance(c.func, ast.Attribute)}
+    grew = True
+    while grew:
+        grew = False
+        for name, cs in selfcalls.items():
+            if name not in delegating and (cs & {'self.transaction.execute', 'self.execute'} or any(('self.' + d) in cs for d in delegating if d != 'execute')):
+                delegating.add(name)
+                grew = True
     for fn in api:
         ck.saw('functions', fn.qn)
         for c in ast.walk(fn.node):
@@ -128,8 +141,7 @@ def run(ck, tier):
                 ck.ob('R3', fn.qn, 'request API does not touch the transport outside the transaction lock', False,
                       detail='unlocked-transport-call %s' % c.func.attr, loc=cx.floc(fn, c),
                       message='%s calls self.%s() before entering the transaction manager\'s lock: two first callers can both connect and overwrite self.socket' % (fn.qn, c.func.attr))
-        tx = [c for c in ast.walk(fn.node) if isinstance(c, ast.Call) and U(c.func) in ('self.transaction.execute', 'self.execute')]
-        ck.ob('R3', fn.qn, 'request API delegates to the locked execute', bool(tx), detail='no-delegation', loc=cx.floc(fn))
+        ck.ob('R3', fn.qn, 'request API delegates to the locked execute', fn.name in delegating, detail='no-delegation', loc=cx.floc(fn))
     ck.floor('R3', len(api), 10, 'request API methods')
     # R3: the synchronous clients use their transaction manager only through its locked execute(): any other method of it
     # (_transact, _send, _recv, getNextTID, addTransaction, ...) called from the client side runs outside the lock
